@@ -184,7 +184,7 @@ static void one_case(int iface, int transport, int version, int doc_alg, uint64_
 	int res = KSI_UNKNOWN_ERROR, expect_ok;
 	unsigned seed = 42;
 	char what[64];
-	snprintf(what, sizeof what, "%s-%s", iface == 0 ? "signAggregated" : iface == 1 ? "createSignature" : iface == 3 ? "signWithPolicyCtx" : "async", transport == 0 ? "tcp" : "http");
+	snprintf(what, sizeof what, "%s-%s", iface == 0 ? "signAggregated" : iface == 1 ? "createSignature" : iface == 3 ? "signWithPolicyCtx" : iface == 4 ? "createAggregated" : iface == 5 ? "Signature_create" : "async", transport == 0 ? "tcp" : "http");
 	srv_install(handler, NULL);
 	memset(&S, 0, sizeof S);
 	S.behaviour = B_HONEST; S.sub = sub; S.version = version; S.shape = shape; S.tail = tail;
@@ -214,6 +214,8 @@ static void one_case(int iface, int transport, int version, int doc_alg, uint64_
 			res = KSI_Signature_signAggregatedWithPolicy(ctx, hsh, level, KSI_VERIFICATION_POLICY_INTERNAL, &vc, &sig);
 			KSI_VerificationContext_clean(&vc);
 		}
+		else if (iface == 4) res = KSI_Signature_createAggregated(ctx, hsh, level, &sig);   /* the older names of the same calls */
+		else if (iface == 5) res = KSI_Signature_create(ctx, hsh, &sig);
 		else res = KSI_createSignature(ctx, hsh, &sig);
 		vf_count("impl_calls", 1);
 	} else {
@@ -256,7 +258,7 @@ static void one_case(int iface, int transport, int version, int doc_alg, uint64_
 		KSI_AsyncService_free(svc);
 	}
 	if (getenv("VF_DEBUG")) KSI_ERR_statusDump(ctx, stderr);
-	check_request_seen(doc_alg, seed, (iface == 1) ? 0 : level);
+	check_request_seen(doc_alg, seed, (iface == 1 || iface == 5) ? 0 : level);
 	if (behaviour == B_OTHER_LEVEL || behaviour == B_INCONSISTENT || behaviour == B_OTHER_HASH || behaviour == B_HONEST || behaviour == B_REORDERED) {
 		/* whether such a body is acceptable is decided by the reference evaluator on what the client
 		 * reconstructs (e.g. without a calendar chain an altered sibling or level is not observable) */
@@ -272,7 +274,7 @@ static void one_case(int iface, int transport, int version, int doc_alg, uint64_
 		}
 		vf_outcome("body:%s:%s", BNAME[behaviour], expect_ok ? "acceptable" : "unacceptable");
 	}
-	check_result(res, sig, expect_ok, doc_alg, seed, (iface == 1) ? 0 : level, what);
+	check_result(res, sig, expect_ok, doc_alg, seed, (iface == 1 || iface == 5) ? 0 : level, what);
 	KSI_Signature_free(sig);
 	KSI_DataHash_free(hsh);
 	KSI_CTX_free(ctx);
@@ -285,12 +287,12 @@ static void part_main(void) {
 	static const int ALGS[] = {RH_SHA256, RH_SHA512, RH_SHA384, RH_RIPEMD160};
 	static const uint64_t LEVELS[] = {0, 1, 2, 254, 255};
 	int iface, tr, ver, ai, li, shape, tail, b, sub;
-	for (iface = 0; iface < 4; iface++) for (tr = 0; tr < 2; tr++) for (ver = 2; ver >= 1; ver--)
+	for (iface = 0; iface < 6; iface++) for (tr = 0; tr < 2; tr++) for (ver = 2; ver >= 1; ver--)
 	for (ai = 0; ai < 4; ai++) for (li = 0; li < 5; li++) for (shape = 0; shape < 6; shape++) for (tail = 0; tail < 3; tail++)
 	for (b = 0; b < B_NBEH; b++) {
 		int nsub = b == B_STATUS || b == B_ERROR_PDU ? NSTATUS : b == B_INCONSISTENT ? NINCONS : 1;
 		int rt = tail == 2 ? 3 : tail;
-		if (iface == 1 && li != 0) continue;                     /* createSignature has no level */
+		if ((iface == 1 || iface == 5) && li != 0) continue;     /* createSignature / KSI_Signature_create have no level */
 		if (!VF_THOROUGH) {
 			/* quick: one shape / algorithm per behaviour, all behaviours, both transports, all interfaces */
 			if (shape != (b % 6) || ai != (b % 4 == 3 ? 1 : 0) || (li != 0 && li != 2) || rt != (b & 1 ? 3 : 1) || (ver == 1 && b > B_STALE_ID && b != B_OTHER_VERSION)) continue;
@@ -310,7 +312,7 @@ static void part_main(void) {
 /* the blocking interface refuses a deprecated (untrusted) input hash algorithm before anything is sent */
 static void part_sha1(void) {
 	int iface, tr;
-	for (iface = 0; iface < 2; iface++) for (tr = 0; tr < 2; tr++) {
+	for (iface = 0; iface < 4; iface++) for (tr = 0; tr < 2; tr++) {
 		KSI_CTX *ctx;
 		KSI_DataHash *hsh = NULL;
 		KSI_Signature *sig = NULL;
@@ -327,7 +329,7 @@ static void part_sha1(void) {
 		hl = ref_fake_imprint(RH_SHA1, 3, h);
 		KSI_DataHash_fromImprint(ctx, h, hl, &hsh);
 		before = sn_calls + fc_calls;
-		res = iface == 0 ? KSI_Signature_signAggregated(ctx, hsh, 0, &sig) : KSI_createSignature(ctx, hsh, &sig);
+		res = iface == 0 ? KSI_Signature_signAggregated(ctx, hsh, 0, &sig) : iface == 1 ? KSI_createSignature(ctx, hsh, &sig) : iface == 2 ? KSI_Signature_createAggregated(ctx, hsh, 0, &sig) : KSI_Signature_create(ctx, hsh, &sig);
 		vf_count("impl_calls", 1);
 		if (res == KSI_OK || sig != NULL) vf_fail("sha1-accepted", "signing a SHA-1 input hash succeeded");
 		if (sn_calls + fc_calls != before || S.nreq != 0) vf_fail("sha1-sent", "a request for a SHA-1 input hash reached the transport (%ld transport calls)", sn_calls + fc_calls - before);
